@@ -32,6 +32,7 @@ var zzC14Catalogue = []zzAttrSpec{
 	/* 14 */ {`v-once`, "v-once"},
 	/* 15 */ {`:title="bv"`, ":title"},
 	/* 16 */ {`title="static-t"`, "title"},
+	/* 17 */ {`:style="{margin: zv, zIndex: iv, color: bv}"`, ":style"},
 }
 
 // VerifC14_Attrs: differential against a reference attribute evaluator
@@ -61,7 +62,7 @@ func VerifC14_Attrs() {
 	seen := map[string]bool{}
 	var src strings.Builder
 	// optionally start from a static attribute and a binding of the same name
-	pre := [][]int{nil, {7, 8}, {7, 9}, {10, 11}, {16, 15}, {8, 7}}[zzChoice("collision", 6)]
+	pre := [][]int{nil, {7, 8}, {7, 9}, {10, 11}, {16, 15}, {8, 7}, {10, 17}}[zzChoice("collision", 7)]
 	for _, k := range pre {
 		spec := zzC14Catalogue[k]
 		seen[spec.name] = true
@@ -155,6 +156,14 @@ func VerifC14_Attrs() {
 		hasStyle = true
 		styleDecl["color"] = "blue"
 		styleDecl["font-size"] = "12px"
+	}
+	if has(17) {
+		// every property of the object contributes its value's string form,
+		// zero and false included
+		hasStyle = true
+		styleDecl["margin"] = "0"
+		styleDecl["z-index"] = "7"
+		styleDecl["color"] = bvStr
 	}
 	if hasClass {
 		want["class"] = strings.Join(classParts, " ")
